@@ -1,5 +1,5 @@
 //@unit C13_aelorder
-//@props C13 C01
+//@props C13 C01 C02
 //@safetyprops C10 C14
 //@desc IsValidAelOrder, the comparison that places a new edge in the active edge list (loop-free; CrossProductSign and IsCollinear are stubs, IsMaxima / NextVertex / PrevPrevVertex are the real bodies over a six-vertex ring): two edges that are apart at the scanline are ordered by x ALONE - the newcomer goes to the right of the resident exactly when its x is larger, whatever their insertion order, bound side or path (the representation-independence C13 needs) -; edges through the same point are ordered first by the turn (resident.top, newcomer.bot, newcomer.top), a proper turn deciding at once; every vertex pointer followed in the collinear tie-breaks is valid.
 #include "vf.h"
